@@ -55,7 +55,7 @@ for seed in 1 7 424242; do
   rm -f "$T"/ev.* "$T"/race.* "$T"/log.* "$T"/rc.*
 
   # ---- hist, wfault: statistics ----
-  for eng in hist:C06 hist:C15 wfault:C14; do
+  for eng in hist:C06 hist:C15 hist:C14 wfault:C14; do
     e=${eng%%:*}; p=${eng##*:}
     for k in 1 2 3 4 5 6; do
       gmp=$(( k % 3 == 0 ? 16 : (k % 3 == 1 ? 1 : 4) ))
@@ -69,7 +69,7 @@ for seed in 1 7 424242; do
     done
     total=$((total+6))
   done
-  echo "determinism: hist(C06,C15) and wfault(C14) VERIF_SEED=$seed: 6 processes each, statistics and distinct-case hashes $( [ $fail = 0 ] && echo identical || echo DIFFER )"
+  echo "determinism: hist(C06,C15,C14) and wfault(C14) VERIF_SEED=$seed: 6 processes each, statistics and distinct-case hashes $( [ $fail = 0 ] && echo identical || echo DIFFER )"
   rm -f "$T"/s.* "$T"/l.*
 done
 if [ -d "$T/replays" ] && ls "$T/replays" | grep -q .; then
